@@ -12,9 +12,11 @@ package main
 
 import (
 	"crypto/sha1"
+	"encoding/json"
 	"fmt"
 	"io"
 	"os"
+	"os/exec"
 	"strings"
 
 	"github.com/rhysd/actionlint"
@@ -40,6 +42,8 @@ type cmpOut struct {
 	Other       []string   `json:"other"`
 	SrcComposed string     `json:"src_composed"`
 	SrcReduced  string     `json:"src_reduced"`
+	// set on the first record of a batch: the process-global type tables differ after the batch
+	GlobalChanged bool `json:"global_changed"`
 }
 
 type cmpItem struct {
@@ -114,6 +118,102 @@ var cmpJobs = map[string]cmpItem{
 	"inputs-ref": {body: `    runs-on: ubuntu-latest
     steps:
       - run: echo ${{ inputs.include }} ${{ inputs.flag }} ${{ inputs.nope }}
+      - run: echo ${{ inputs.extra }}
+      - run: echo ${{ inputs.flag.deep }}
+`},
+	"call-with-matrix": {body: `    strategy:
+      matrix:
+        os: [linux, mac]
+        flag: [1]
+    uses: octo-org/shared/.github/workflows/build.yml@v1
+    with:
+      os: ${{ matrix.os }}
+`},
+	"call-with-needs": {dep: "outputs-job", body: `    needs: [@DEP@]
+    uses: octo-org/shared/.github/workflows/build.yml@v1
+    with:
+      v: ${{ needs.@DEP@.outputs.o }}
+      w: ${{ needs.@DEP@.outputs.zz }}
+`},
+	"matrix-include-context-inputs": {body: `    strategy:
+      matrix:
+        include:
+          - ${{ inputs }}
+          - extra: foo
+            flag: bar
+    runs-on: ubuntu-latest
+    steps:
+      - run: echo ${{ matrix.extra }}
+`},
+	"matrix-include-context-github-event": {body: `    strategy:
+      matrix:
+        include:
+          - ${{ github.event }}
+          - os: linux
+            extra: foo
+    runs-on: ubuntu-latest
+    steps:
+      - run: echo ${{ matrix.os }}
+`},
+	"matrix-include-context-vars": {body: `    strategy:
+      matrix:
+        include:
+          - ${{ vars }}
+          - extra: foo
+    runs-on: ubuntu-latest
+    steps:
+      - run: echo ${{ matrix.extra }}
+`},
+	"matrix-include-expr-then-literal": {body: `    strategy:
+      matrix:
+        include:
+          - ${{ fromJSON(vars.ELEMENT) }}
+          - os: linux
+    runs-on: ubuntu-latest
+    steps:
+      - run: echo ${{ matrix.os }} ${{ matrix.other }}
+`},
+	"github-event-deref": {body: `    runs-on: ubuntu-latest
+    steps:
+      - run: echo ${{ github.event.os.name }}
+      - run: echo ${{ github.event.extra.name }}
+      - run: echo ${{ vars.extra.name }}
+`},
+	"no-runs-on-shells": {body: `    defaults:
+      run:
+        shell: bash
+    steps:
+      - run: echo hello
+        shell: sh
+      - run: echo hello
+        shell: cmd
+      - run: echo hello
+        shell: powershell
+`},
+	"no-runs-on-default-shell": {body: `    steps:
+      - run: echo hello
+      - run: echo again
+`},
+	"labels-multi-ok": {body: `    runs-on: [self-hosted, linux]
+    steps:
+      - run: echo
+`},
+	"steps-in-job-env": {body: `    runs-on: ubuntu-latest
+    env:
+      FROM_STEP: ${{ steps.a.outputs.v }}
+    steps:
+      - run: echo
+`},
+	"needs-in-matrix": {dep: "outputs-job", body: `    needs: [@DEP@]
+    strategy:
+      matrix:
+        v: ${{ fromJSON(needs.@DEP@.outputs.o) }}
+        include:
+          - w: ${{ needs.@DEP@.outputs.o }}
+          - w: ${{ needs.@DEP@.outputs.zz }}
+    runs-on: ubuntu-latest
+    steps:
+      - run: echo ${{ matrix.v }} ${{ matrix.w }}
 `},
 	"shell-python-default": {body: `    runs-on: ubuntu-latest
     defaults:
@@ -619,6 +719,160 @@ func cmpTool(args []string) error {
 	return nil
 }
 
+// ------------------------------------------------------------------ process-global type tables
+//
+// The composed and the reduced workflow are linted in one process, so a construct that edits a
+// PROCESS-GLOBAL table (BuiltinGlobalVariableTypes, BuiltinFuncSignatures) changes both alike and
+// the relation above cannot see it.  Every catalogue entry is therefore also linted alone in a
+// fresh process and the deep dump of the tables before and after is compared.
+
+func cmpDumpType(sb *strings.Builder, t actionlint.ExprType, depth int) {
+	if depth > 12 {
+		sb.WriteString("...")
+		return
+	}
+	switch t := t.(type) {
+	case *actionlint.ObjectType:
+		if t == nil {
+			sb.WriteString("nil-object")
+			return
+		}
+		sb.WriteString("{")
+		names := make([]string, 0, len(t.Props))
+		for n := range t.Props {
+			names = append(names, n)
+		}
+		sortStrings(names)
+		for _, n := range names {
+			sb.WriteString(n + ":")
+			cmpDumpType(sb, t.Props[n], depth+1)
+			sb.WriteString(";")
+		}
+		sb.WriteString("}=>")
+		if t.Mapped == nil {
+			sb.WriteString("strict")
+		} else {
+			cmpDumpType(sb, t.Mapped, depth+1)
+		}
+	case *actionlint.ArrayType:
+		fmt.Fprintf(sb, "array(deref=%v)<", t.Deref)
+		cmpDumpType(sb, t.Elem, depth+1)
+		sb.WriteString(">")
+	case nil:
+		sb.WriteString("nil")
+	default:
+		sb.WriteString(t.String())
+	}
+}
+
+func cmpGlobalDump() []string {
+	var lines []string
+	for n, t := range actionlint.BuiltinGlobalVariableTypes {
+		var sb strings.Builder
+		cmpDumpType(&sb, t, 0)
+		lines = append(lines, "var "+n+" = "+sb.String())
+	}
+	for n, sigs := range actionlint.BuiltinFuncSignatures {
+		for i, sig := range sigs {
+			var sb strings.Builder
+			cmpDumpType(&sb, sig.Ret, 0)
+			for _, p := range sig.Params {
+				sb.WriteString(" <- ")
+				cmpDumpType(&sb, p, 0)
+			}
+			lines = append(lines, fmt.Sprintf("func %s#%d = %s varargs=%v", n, i, sb.String(), sig.VariableLengthParams))
+		}
+	}
+	sortStrings(lines)
+	return lines
+}
+
+type cmpItemOut struct {
+	Lvl     string   `json:"lvl"`
+	Name    string   `json:"name"`
+	Hdr     string   `json:"hdr"`
+	Changed []string `json:"changed"` // lines of the dump that differ after linting the entry alone
+	Other   []string `json:"other"`
+	Src     string   `json:"src"`
+}
+
+// cmpItemRun lints one catalogue entry alone (this process has linted nothing before)
+func cmpItemRun(lvl, name, hdr string) cmpItemOut {
+	out := cmpItemOut{Lvl: lvl, Name: name, Hdr: hdr, Changed: []string{}, Other: []string{}}
+	v := cmpVec{Lvl: lvl, Hdr: hdr, Subj: name, Pos: 0, Place: ""}
+	var r cmpText
+	var err error
+	switch lvl {
+	case "job":
+		_, r, err = cmpBuildJob(v)
+	case "step":
+		_, r, err = cmpBuildStep(v)
+	case "expr":
+		s, ok := cmpExprs[name]
+		if !ok {
+			err = fmt.Errorf("expression catalogue has no entry %q", name)
+		}
+		r = cmpExprFrame(s, "", "")
+	default:
+		err = fmt.Errorf("unknown level %q", lvl)
+	}
+	if err != nil {
+		out.Other = append(out.Other, "catalogue: "+err.Error())
+		return out
+	}
+	out.Src = r.src
+	before := cmpGlobalDump()
+	if _, err := cmpLint(r.src, false); err != nil {
+		out.Other = append(out.Other, "lint error: "+err.Error())
+		return out
+	}
+	after := cmpGlobalDump()
+	seen := map[string]bool{}
+	for _, l := range before {
+		seen[l] = true
+	}
+	for _, l := range after {
+		if !seen[l] {
+			out.Changed = append(out.Changed, l)
+		}
+	}
+	if len(before) != len(after) && len(out.Changed) == 0 {
+		out.Changed = append(out.Changed, fmt.Sprintf("%d entries before, %d after", len(before), len(after)))
+	}
+	return out
+}
+
+func init() {
+	// compose-item <lvl> <name> <hdr>: one entry in this fresh process, JSON on stdout
+	register("compose-item", func(args []string) error {
+		o := cmpItemRun(args[0], args[1], args[2])
+		b, _ := json.Marshal(o)
+		fmt.Println(string(b))
+		return nil
+	})
+	// compose-items <in.jsonl> <out.jsonl>: in = {lvl, name, hdr}; one child process per entry
+	register("compose-items", func(args []string) error {
+		in, err := readJSONL[cmpItemOut](args[0])
+		if err != nil {
+			return err
+		}
+		self, err := os.Executable()
+		if err != nil {
+			return err
+		}
+		outs := parallelMap(in, func(it cmpItemOut) cmpItemOut {
+			b, err := exec.Command(self, "compose-item", it.Lvl, it.Name, it.Hdr).Output()
+			var o cmpItemOut
+			if err != nil || json.Unmarshal(b, &o) != nil {
+				return cmpItemOut{Lvl: it.Lvl, Name: it.Name, Hdr: it.Hdr, Changed: []string{},
+					Other: []string{fmt.Sprint("child process failed: ", err, " ", string(b))}}
+			}
+			return o
+		})
+		return writeJSONL(args[1], outs)
+	})
+}
+
 func init() {
 	register("c09tool", cmpTool)
 	register("compose-run", func(args []string) error {
@@ -630,6 +884,7 @@ func init() {
 		if len(args) > 2 {
 			fmt.Sscan(args[2], &reps)
 		}
+		before := strings.Join(cmpGlobalDump(), "\n")
 		outs := parallelMap(in, func(v cmpVec) cmpOut {
 			o := cmpRun(v, reps)
 			same := len(o.Composed) == 1 && len(o.Reduced) == 1 && strings.Join(o.Composed[0], "\n") == strings.Join(o.Reduced[0], "\n")
@@ -638,6 +893,9 @@ func init() {
 			}
 			return o
 		})
+		if after := strings.Join(cmpGlobalDump(), "\n"); after != before && len(outs) > 0 {
+			outs[0].GlobalChanged = true // some composition of this batch edited a process-global type table
+		}
 		return writeJSONL(args[1], outs)
 	})
 }
